@@ -132,11 +132,74 @@ type injector struct {
 	// construction); suppressed counts them.
 	suppress   func() string
 	suppressed map[string]int
+}
 
-	// frozen: the DB was abandoned (Fatalf / foreground panic / watchdog): every
-	// further FS operation of its goroutines blocks forever, which is the closest
-	// in-process approximation of "the process is gone".
+// gate sits between one DB instance (one pebble.Open call) and the injector.
+// Once frozen - the instance was abandoned after Fatalf / a foreground panic /
+// the watchdog, its Open returned an error, or it was closed - every further
+// file-system operation of the instance's goroutines is recorded and parked
+// forever: the closest in-process approximation of "that process is gone", and
+// the guarantee that a dead instance never touches the files of its successor.
+type gate struct {
+	in     *injector
+	lg     *recLogger
 	frozen atomic.Bool
+	why    string
+	mu     sync.Mutex
+	late   []string
+	nlate  int
+}
+
+func (g *gate) String() string { return "fault-plan gate" }
+
+func (g *gate) MaybeError(op errorfs.Op) error {
+	if g.frozen.Load() {
+		g.mu.Lock()
+		g.nlate++
+		if len(g.late) < 6 {
+			g.late = append(g.late, fmt.Sprintf("%v %s", op.Kind, op.Path))
+		}
+		g.mu.Unlock()
+		select {}
+	}
+	err := g.in.MaybeError(op)
+	if err != nil && op.Kind == errorfs.OpFileSync && inAtomicMarker() {
+		// atomicfs.Marker panics deliberately when the directory fsync fails
+		// ("fsync errors are unrecoverable"), on whatever goroutine it runs: that is
+		// process death by design, modelled exactly like Logger.Fatalf (recorded,
+		// goroutine parked, crash images examined).
+		g.lg.Fatalf("directory fsync failed inside atomicfs.Marker, where Pebble panics by design: %v", err)
+	}
+	return err
+}
+
+func inAtomicMarker() bool {
+	pcs := make([]uintptr, 16)
+	n := runtime.Callers(3, pcs)
+	frames := runtime.CallersFrames(pcs[:n])
+	for {
+		f, more := frames.Next()
+		if strings.Contains(f.Function, "/vfs/atomicfs.(*Marker).") {
+			return true
+		}
+		if !more {
+			return false
+		}
+	}
+}
+
+func (g *gate) freeze(why string) {
+	if g.frozen.CompareAndSwap(false, true) {
+		g.mu.Lock()
+		g.why = why
+		g.mu.Unlock()
+	}
+}
+
+func (g *gate) lateOps() (int, []string) {
+	g.mu.Lock()
+	defer g.mu.Unlock()
+	return g.nlate, append([]string(nil), g.late...)
 }
 
 // debugFire, if set, is called (with the injector locked) whenever a fault fires.
@@ -149,9 +212,6 @@ func newInjector(rules []Rule) *injector {
 func (in *injector) String() string { return "fault-plan injector" }
 
 func (in *injector) MaybeError(op errorfs.Op) error {
-	if in.frozen.Load() {
-		select {}
-	}
 	cls := fileClass(op.Path)
 	kind := opKind(op.Kind, cls)
 	in.mu.Lock()
@@ -244,8 +304,6 @@ func (in *injector) firedLabels() []string {
 	return l
 }
 
-func (in *injector) freeze() { in.frozen.Store(true) }
-
 // SigCompactFirst is the signature of the candidate finding: a read error met
 // while a compaction positions its range-key / range-deletion input iterators
 // for the first time (compact.(*Iter).First -> keyspan.InterleavingIter.First ->
@@ -265,15 +323,15 @@ const SigCompactSaveValue = "compaction-savevalue-error-overwritten-at-end-of-in
 // signature of the known-finding class a fault fired now would belong to
 // (active reports whether a signature is listed), or "".
 func knownFindingClass(active func(sig string) bool) func() string {
-	first, save := active(SigCompactFirst), active(SigCompactSaveValue)
-	if !first && !save {
+	first, save, open, blob := active(SigCompactFirst), active(SigCompactSaveValue), active(SigFailedOpenLeak), active(SigBlobAbort)
+	if !first && !save && !open && !blob {
 		return nil
 	}
 	return func() string {
 		pcs := make([]uintptr, 96)
 		n := runtime.Callers(2, pcs)
 		frames := runtime.CallersFrames(pcs[:n])
-		inFirst, inKeyspan, inSave := false, false, false
+		inFirst, inKeyspan, inSave, inOpen, lateOpen, blobClose, finish := false, false, false, false, false, false, false
 		for {
 			f, more := frames.Next()
 			switch {
@@ -283,6 +341,19 @@ func knownFindingClass(active func(sig string) bool) func() string {
 				inSave = true
 			case strings.Contains(f.Function, "/internal/keyspan/keyspanimpl."):
 				inKeyspan = true
+			case strings.HasSuffix(f.Function, "/sstable/blob.(*FileWriter).Close"):
+				blobClose = true
+			case strings.HasSuffix(f.Function, "/objstorageprovider.(*fileBufferedWritable).Finish"):
+				finish = true
+			case f.Function == "github.com/cockroachdb/pebble.Open":
+				inOpen = true
+			case strings.HasSuffix(f.Function, "/wal.(*StandaloneManager).Create"),
+				strings.HasSuffix(f.Function, "pebble.(*DB).ratchetFormatMajorVersionLocked"),
+				strings.HasSuffix(f.Function, "pebble.(*DB).writeFormatVersionMarker"):
+				// the file-system work Open does after it may have scheduled a flush
+				// and compactions (open.go: maybeScheduleFlush precedes the creation
+				// of the new WAL and the format-version ratchet).
+				lateOpen = true
 			}
 			if !more {
 				break
@@ -293,7 +364,29 @@ func knownFindingClass(active func(sig string) bool) func() string {
 			return SigCompactSaveValue
 		case first && inFirst && inKeyspan:
 			return SigCompactFirst
+		case open && inOpen && lateOpen:
+			return SigFailedOpenLeak
+		case blob && blobClose && finish:
+			return SigBlobAbort
 		}
 		return ""
 	}
 }
+
+// SigFailedOpenLeak is the signature of the candidate finding: pebble.Open
+// fails after it has scheduled background work (Open runs maybeScheduleFlush,
+// whose completion schedules compactions, before it creates the new WAL and
+// ratchets the format version); the error path closes the version set while the
+// compaction goroutine keeps running and later uses the closed MANIFEST (nil
+// dereference on MemFS - the process dies; write to a closed file / Fatalf on a
+// real file system).
+const SigFailedOpenLeak = "failed-open-leaves-background-compaction-running"
+
+// SigBlobAbort is the signature of the candidate finding: when the Finish of a
+// blob file's writable fails (flush of the buffered tail or the fsync),
+// blob.(*FileWriter).Close calls Abort on the same writable, although
+// fileBufferedWritable.Finish has already closed the file and set it to nil:
+// nil dereference on the flush / compaction goroutine, the process dies. It
+// cannot be demonstrated in-process (it kills the test binary); the plan is kept
+// in findings/blob-writer-abort-nil-deref.json.
+const SigBlobAbort = "blob-writer-abort-after-failed-finish-nil-deref"
